@@ -5,10 +5,13 @@ import json, os, re
 ROOT = os.path.dirname(os.path.dirname(os.path.abspath(__file__)))
 
 def theorems(prop):
-    p = os.path.join(ROOT, "lean", "UBidi", "Props", prop + ".lean")
-    if not os.path.exists(p): return []
-    src = open(p, encoding="utf-8").read()
-    return re.findall(r"^\s*theorem\s+([^\s:({\[]+)", src, re.M)
+    import glob
+    out = []
+    for f in sorted(glob.glob(os.path.join(ROOT, "lean", "UBidi", "Props", prop + "*.lean"))):
+        src = open(f, encoding="utf-8").read()
+        out += re.findall(r"^\s*theorem\s+([^\s:({\[]+)", src, re.M)
+        out += [n.split("UBidi.")[-1] for n in re.findall(r"^--\s*AUDIT:\s*(\S+)", src, re.M)]
+    return out
 
 NOTE = ("Trusted: Lean 4.33 kernel (axioms audited per theorem: propext, Classical.choice, Quot.sound only); the hand-written Model "
         "(tied to /repo by the differential correspondence run by this check, not by proof); the Spec as the reading of UAX #9 / the "
@@ -50,7 +53,7 @@ for i in range(1, 21):
         "evidence_file": "/verif/evidence/%s.json" % pid,
         "replay_cmd_template": "./check %s --replay {path}" % pid,
         "engine": "lean4-model+correspondence",
-        "level_claimed": {"category": "proof", "text": text + " Theorems currently in UBidi/Props/%s.lean: %s." % (pid, ", ".join(ths) if ths else "(none)"), "design_ref": "DESIGN.md §5 " + pid},
+        "level_claimed": {"category": "proof", "text": text + " Theorems currently in UBidi/Props/%s*.lean: %s." % (pid, ", ".join(ths) if ths else "(none)"), "design_ref": "DESIGN.md §5 " + pid},
         "level_note": NOTE,
         "technique": tech,
     })
